@@ -316,6 +316,7 @@ package internal
 //@   property C12
 //@   requires jump$1 != nil && yield != nil && *yield != nil
 //@   assigns cell(jump$1)
+//@   ensures !result ==> stopped                                              # name: parsing-ends-early-only-when-the-consumer-stops-it   props: C12 C18 C06 C02 C01 C13
 
 // unquote = ParseQuotedString (RFC 9110 §5.6.4); a no-cache directive is qualified iff its unquoted argument is non-empty
 //@ spec func unquote(s string) string
@@ -996,6 +997,7 @@ package internal
 //@   assigns storeWrites, deletedKeys, indexRead, lastResolved, lastSameOrigin
 //@   ensures forall x string :: old(deletedKeys)[x] ==> deletedKeys[x]                                     # name: deletions-accumulate
 //@   loop 0 invariant lastResolved != old(lastResolved) && lastSameOrigin ==> deletedKeys[urlKeyOf(lastResolved)]         # name: a-same-origin-reference-is-invalidated-before-the-next-field-is-examined
+//@   loop 0 exit-requires rangeindex >= 1                                                                  # name: both-location-fields-are-examined
 //@   callsite url.Parse :: rawURL == hget(respHeader, canon(hdr))                                          # name: the-reference-is-the-value-of-the-field-examined
 //@   callsite ResolveReference :: u == reqURL                                                              # name: references-are-resolved-against-the-request-uri
 //@   callsite sameOrigin :: a == reqURL && b == lastResolved                                                # name: origin-of-the-resolved-uri-is-compared-with-the-requests
@@ -1003,6 +1005,7 @@ package internal
 //@   loop 0 invariant forall x string :: old(deletedKeys)[x] ==> deletedKeys[x]
 //@   rangefunc 0 invariant forall x string :: old(deletedKeys)[x] ==> deletedKeys[x]
 //@   rangefunc 0 invariant urlKey == urlKeyOf(lastResolved)
+//@   rangefunc 0 invariant *jump$1 == 0
 
 //@ func (*cacheInvalidator).InvalidateCache
 //@   implements CacheInvalidator.InvalidateCache
